@@ -242,7 +242,7 @@ def cells_numeric(arr):
     return True, None
 
 
-def run_bounded(ctx):
+def _run_bounded(ctx):
     ctx.assume(
         "A-C08-default-coding: default coding is Treatment with the first level as reference (contrasts guide), terms are "
         "ordered by degree and `a:b` columns are row-wise products (grammar guide); only used to lay out expected matrices",
@@ -288,7 +288,13 @@ def run_bounded(ctx):
                             key = (name, mat, formula, variant, out)
                             b.case(key, nontrivial=True, sample={"dtype": name, "materializer": mat, "formula": formula,
                                                                  "nulls": variant, "output": out})
-                            _one(rep, dt, mat, formula, out, variant)
+                            try:
+                                _one(rep, dt, mat, formula, out, variant)
+                            except Exception as e:  # the oracle was fed something it cannot digest
+                                f = K.oracle_failure(e, _GROUP_CLAUSE.get(group, "C08.cells.numeric"), key)
+                                rep.fail(f["clause"], f"{name} | {mat} | " + f["cls"],
+                                         {"dtype": name, "materializer": mat, "formula": formula, "nulls": variant, "output": out},
+                                         f["detail"])
         rep.note()
 
     with ctx.bounded(
@@ -307,7 +313,11 @@ def run_bounded(ctx):
                 if mat == "narwhals(pyarrow)" and pa_src is None:
                     continue
                 b.case((name, mat), nontrivial=True)
-                _kind(rep, dt, mat)
+                try:
+                    _kind(rep, dt, mat)
+                except Exception as e:  # constructing the materializer / asking it raised
+                    f = K.oracle_failure(e, "C08.kind.is_categorical", (name, mat))
+                    rep.fail(f["clause"], f"{name} | {mat} | " + f["cls"], {"dtype": name, "materializer": mat}, f["detail"])
         rep.note()
     if not ctx.explanation:
         ctx.explanation = (
@@ -315,6 +325,9 @@ def run_bounded(ctx):
             "table; expected matrices laid out from the raw values, compared for every output type and materializer"
         )
 
+
+_GROUP_CLAUSE = {"text": "C08.text.sorted-indicators", "cat": "C08.categorical.declared-order-indicators",
+                 "num": "C08.numeric.pass-through", "bool": "C08.cells.numeric"}
 
 _KIND_SRC = (
     "mcls = formulaic.materializers.PandasMaterializer if MAT == 'pandas' else formulaic.materializers.NarwhalsMaterializer\n"
@@ -400,3 +413,10 @@ def _one(rep, dt, mat, formula, out, variant="none"):
             perm = sorted(map(tuple, got.T.tolist())) == sorted(map(tuple, E.T.tolist()))
             rep.fail(clause, cls, wit,
                      ("columns are the expected ones in another order; " if perm else "") + f"columns {list(res.model_spec.column_names)} values {got.tolist()} expected {E.tolist()}")
+
+
+def run_bounded(ctx):
+    """Never raises because of what the library under test returns or raises: anything that slips past the
+    per-case guards is recorded as a violation (class oracle-not-applicable:<Type>) and the run ends normally."""
+    with K.guard(ctx, "C08.cells.numeric", "c08.run_bounded"):
+        _run_bounded(ctx)
